@@ -65,7 +65,13 @@ func (f *fx) envAt(st *State) *Env {
 // lookupLocal resolves a source-level variable name at the current point: the latest definition or
 // reference (phi named like the variable, debug reference, or address-taken local) that dominates
 // the current block.
-func (f *fx) lookupLocal(name string) (TV, bool) {
+// lookupLocal resolves a local variable of the function by its source name; variables that live in memory (named
+// results of functions with defers, address-taken locals) are read in state st (the state the clause is evaluated in,
+// e.g. the loop-head state under prev()).
+func (f *fx) lookupLocal(name string, st *State) (TV, bool) {
+	if st == nil {
+		st = f.cur
+	}
 	depth := func(b *ssa.BasicBlock) int {
 		n := 0
 		for x := b.Idom(); x != nil; x = x.Idom() {
@@ -98,7 +104,7 @@ func (f *fx) lookupLocal(name string) (TV, bool) {
 			case *ssa.Alloc:
 				if x.Comment == name {
 					if v, ok := f.vals[x]; ok && v.Kind == vLoc {
-						consider(TV{V: termVal(f.load(f.cur, v.Loc)), GoT: derefType(x.Type())}, b, i)
+						consider(TV{V: termVal(f.load(st, v.Loc)), GoT: derefType(x.Type())}, b, i)
 					}
 				}
 			case *ssa.DebugRef:
@@ -146,7 +152,7 @@ func (f *fx) lookupLocal(name string) (TV, bool) {
 			if fv.Name() == name && i < len(f.freeVars) {
 				v := f.freeVars[i]
 				l := f.ptrLoc(v, fv.Type())
-				return TV{V: termVal(f.load(f.cur, l)), GoT: derefType(fv.Type())}, true
+				return TV{V: termVal(f.load(st, l)), GoT: derefType(fv.Type())}, true
 			}
 		}
 	}
@@ -209,7 +215,7 @@ func (f *fx) evalSpec(x ast.Expr, env *Env) TV {
 			if v, ok := env.caller[e.Sel.Name]; ok {
 				return v
 			}
-			if v, ok := env.f.lookupLocal(e.Sel.Name); ok {
+			if v, ok := env.f.lookupLocal(e.Sel.Name, env.cur); ok {
 				return v
 			}
 			unsupp("caller.%s is not a parameter or local of the calling function", e.Sel.Name)
@@ -335,7 +341,7 @@ func (f *fx) tryIdent(name string, env *Env) (TV, bool) {
 	}
 	if env.atLoop {
 		// inside the body the current value of a (possibly reassigned) parameter or local wins
-		if v, ok := env.f.lookupLocal(name); ok {
+		if v, ok := env.f.lookupLocal(name, env.cur); ok {
 			return v, true
 		}
 	}
